@@ -103,6 +103,29 @@ func readAll(cc *chunkConn) string {
 	return strings.Join(out, " ")
 }
 
+// readAllRead: the same stream through Conn.Read (the io.Reader face used by Transfer.ReadMsg)
+func readAllRead(cc *chunkConn) string {
+	co := &dns.Conn{Conn: cc}
+	var out []string
+	buf := make([]byte, 65535)
+	for i := 0; i < 1000; i++ {
+		n, err := co.Read(buf)
+		if err != nil {
+			switch {
+			case err == io.EOF:
+				out = append(out, "eof")
+			case err == io.ErrUnexpectedEOF:
+				out = append(out, "unexpected")
+			default:
+				out = append(out, "err:"+err.Error())
+			}
+			break
+		}
+		out = append(out, hx(buf[:n]))
+	}
+	return strings.Join(out, " ")
+}
+
 // scriptPC: a datagram "connection" with scripted inbound datagrams.
 type scriptPC struct {
 	in  [][]byte // nil entry = read error (deadline)
@@ -185,6 +208,8 @@ func runC12(c *Ctx) {
 			}
 			want = append(want, "eof")
 			c.Pred("framing", "frames-intact", fmt.Sprintf("%d messages in %d chunks", k, len(cs)), got == strings.Join(want, " "), got[:min(len(got), 80)], "the messages, then eof", k > 0)
+			got2 := readAllRead(&chunkConn{chunks: append([][]byte{}, cs...)})
+			c.Pred("framing", "frames-intact-conn-read", "chunks="+chunksHex(cs)[:min(len(chunksHex(cs)), 400)], got2 == strings.Join(want, " "), got2[:min(len(got2), 80)], "the messages, then eof", k > 0)
 		}
 	}
 	// every end offset of a small stream (exhaustive)
@@ -273,6 +298,7 @@ func runC12(c *Ctx) {
 		c.Op("id-stream", fmt.Sprintf("xchg.stream %d %s", qid, strings.Join(sargs, " ")), got, k > 0)
 	}
 	// 3. concurrent clients against real servers: each handler sees its own request, each client its own reply
+	c12BufferReuse(c, r)
 	c12Concurrent(c, r, "udp")
 	c12Concurrent(c, r, "tcp")
 	// 4. a TCP server reading requests cut at every offset (incl. inside the length prefix)
@@ -293,13 +319,124 @@ func tokenMsg(client, seq int) (*dns.Msg, string) {
 	return m, tok
 }
 
+// c12Pool: records of every type (decoded from generated wire data) that requests carry in their answer, authority
+// and additional sections, so that every decoder that might keep a reference into the receive buffer is exercised
+func c12Pool(r *Rng) []dns.RR {
+	t := loadSpec()
+	var pool []dns.RR
+	for k := 0; k < 6; k++ {
+		for _, typ := range t.wireTypes() {
+			g := genRR(r, typ, 0, r.Bool())
+			if len(g.Wire) > 300 {
+				continue
+			}
+			rr, off, err := dns.UnpackRR(g.Wire, 0)
+			if err != nil || off != len(g.Wire) {
+				continue
+			}
+			if _, err := packRRBytes(rr); err != nil {
+				continue
+			}
+			pool = append(pool, rr)
+		}
+	}
+	// hand-written ones with the multi-valued SVCB parameters and EDNS0 options
+	for _, txt := range []string{
+		"s.example. 60 IN HTTPS 1 . alpn=h2,h3 ipv4hint=192.0.2.1,192.0.2.2,198.51.100.7 ipv6hint=2001:db8::1,2001:db8::2 ech=AAECAwQF port=8443",
+		"s.example. 60 IN SVCB 2 t.example. mandatory=ipv4hint,alpn alpn=h2 ipv4hint=203.0.113.77,203.0.113.78 dohpath=/dns-query{?dns} key65000=abcdef",
+		"a.example. 60 IN APL 1:192.168.32.0/21 !1:192.168.38.0/28 2:2001:db8::/32",
+	} {
+		if rr, err := dns.NewRR(txt); err == nil && rr != nil {
+			pool = append(pool, rr)
+		}
+	}
+	return pool
+}
+
+// c12BufferReuse: one request is held in its handler while others are received; the receive buffer has been handed
+// back to the pool by then, so anything the decoded request still shares with it changes under the handler.
+func c12BufferReuse(c *Ctx, r *Rng) {
+	entered := make(chan struct{}, 16)
+	release := make(chan struct{})
+	var changed, held int64
+	h := dns.HandlerFunc(func(w dns.ResponseWriter, req *dns.Msg) {
+		if req.Id%2 == 1 {
+			before := req.String()
+			atomic.AddInt64(&held, 1)
+			entered <- struct{}{}
+			<-release
+			if req.String() != before {
+				atomic.AddInt64(&changed, 1)
+			}
+		}
+		m := new(dns.Msg)
+		m.SetReply(req)
+		w.WriteMsg(m)
+	})
+	pc, err := net.ListenPacket("udp", "127.0.0.1:0")
+	if err != nil {
+		c.Res.Notes = append(c.Res.Notes, "loopback udp not available: "+err.Error())
+		return
+	}
+	srv := &dns.Server{PacketConn: pc, Handler: h, UDPSize: 1232, ReadTimeout: 2 * time.Second}
+	started := make(chan struct{})
+	srv.NotifyStartedFunc = func() { close(started) }
+	go srv.ActivateAndServe()
+	<-started
+	defer srv.Shutdown()
+	mk := func(id uint16, v byte) *dns.Msg {
+		m := new(dns.Msg)
+		m.SetQuestion("reuse.example.", dns.TypeHTTPS)
+		m.Id = id
+		txt := fmt.Sprintf("s.example. 60 IN HTTPS 1 . alpn=h%d ipv4hint=192.0.2.%d,198.51.100.%d ipv6hint=2001:db8::%x ech=AAEC%02X port=%d", v%9+1, v, v, v, v, 1000+int(v))
+		if rr, err := dns.NewRR(txt); err == nil {
+			m.Answer = []dns.RR{rr}
+		}
+		apl, _ := dns.NewRR(fmt.Sprintf("a.example. 60 IN APL 1:10.%d.0.0/16 2:2001:db8:%x::/48", v, v))
+		m.Ns = []dns.RR{apl}
+		o := &dns.OPT{Hdr: dns.RR_Header{Name: ".", Rrtype: dns.TypeOPT}}
+		o.SetUDPSize(1232)
+		o.Option = append(o.Option, &dns.EDNS0_SUBNET{Code: dns.EDNS0SUBNET, Family: 1, SourceNetmask: 32, Address: net.IPv4(10, 9, v, v).To4()},
+			&dns.EDNS0_COOKIE{Code: dns.EDNS0COOKIE, Cookie: fmt.Sprintf("%016x", uint64(v)*0x0101010101010101)},
+			&dns.EDNS0_LOCAL{Code: 65001, Data: []byte{v, v, v, v}}, &dns.EDNS0_NSID{Code: dns.EDNS0NSID, Nsid: fmt.Sprintf("%02x%02x", v, v)})
+		m.Extra = []dns.RR{o}
+		return m
+	}
+	rounds := c.Scale(40, 400)
+	cl := &dns.Client{Net: "udp", Timeout: 2 * time.Second}
+	for i := 0; i < rounds; i++ {
+		done := make(chan struct{})
+		go func() {
+			cl.Exchange(mk(uint16(2*i+1), byte(1+i%100)), pc.LocalAddr().String())
+			close(done)
+		}()
+		select {
+		case <-entered:
+		case <-time.After(2 * time.Second):
+		}
+		for k := 0; k < 6; k++ {
+			cl.Exchange(mk(uint16(2*(i*8+k)+2), byte(101+(i+k)%100)), pc.LocalAddr().String())
+		}
+		release <- struct{}{}
+		<-done
+	}
+	c.Pred("udp-buffer-reuse", "request-stable-while-handled", fmt.Sprintf("%d held requests, 6 others received meanwhile", held), changed == 0 && held > 0,
+		fmt.Sprint(changed, " of ", held, " held requests changed"), "0", true)
+	c.Res.Evaluations += rounds * 7
+}
+
 func c12Concurrent(c *Ctx, r *Rng, network string) {
-	var bad int64
+	var bad, changed int64
 	var handled int64
+	pool := c12Pool(r)
 	h := dns.HandlerFunc(func(w dns.ResponseWriter, req *dns.Msg) {
 		atomic.AddInt64(&handled, 1)
 		// hold the request for a while: recycled receive buffers must not change it
+		before := req.String()
 		time.Sleep(time.Duration(200+int(req.Id)%700) * time.Microsecond)
+		if req.String() != before {
+			atomic.AddInt64(&changed, 1)
+		}
 		tok := strings.TrimSuffix(req.Question[0].Name, ".example.")
 		ok := false
 		if o := req.IsEdns0(); o != nil {
@@ -352,6 +489,18 @@ func c12Concurrent(c *Ctx, r *Rng, network string) {
 			var conn *dns.Conn
 			for q := 0; q < per; q++ {
 				m, tok := tokenMsg(ci, q)
+				// extra baggage within what the default policy admits: one answer, one authority, one more additional
+				if len(pool) > 0 {
+					k := ci*131 + q*17
+					switch k % 4 {
+					case 0:
+						m.Answer = []dns.RR{pool[k%len(pool)]}
+					case 1:
+						m.Ns = []dns.RR{pool[k%len(pool)]}
+					case 2:
+						m.Extra = append([]dns.RR{pool[k%len(pool)]}, m.Extra...)
+					}
+				}
 				var rm *dns.Msg
 				var err error
 				if network == "tcp" && q%3 != 0 {
@@ -392,6 +541,7 @@ func c12Concurrent(c *Ctx, r *Rng, network string) {
 	srv.Shutdown()
 	total := clients * per
 	c.Pred("concurrent-"+network, "handler-sees-own-request", fmt.Sprintf("%d clients x %d queries", clients, per), bad == 0, fmt.Sprint(bad, " requests inconsistent"), "0", true)
+	c.Pred("concurrent-"+network, "request-stable-while-handled", fmt.Sprintf("%d clients x %d queries", clients, per), changed == 0, fmt.Sprint(changed, " requests changed under the handler"), "0", true)
 	c.Pred("concurrent-"+network, "client-gets-own-reply", fmt.Sprintf("%d clients x %d queries", clients, per), mism == 0, fmt.Sprint(mism, " replies mixed up"), "0", true)
 	c.Pred("concurrent-"+network, "exchanges-complete", fmt.Sprintf("%d clients x %d queries", clients, per), fails*20 <= int64(total), fmt.Sprint(fails, " failed of ", total), "at most 5% lost", true)
 	c.Res.Evaluations += total
